@@ -385,27 +385,31 @@ def solve(ob, timeout_ms):
         s.add(z3.Not(ob.goal))
         return s, s.check()
 
-    # stage 1: E-matching only, short budget (fast and stable for most valid VCs)
-    s, r = attempt(True, min(2000, timeout_ms))
-    if r == z3.unsat:
-        return "unsat", time.time() - t0, None, "z3-ematch"
-    # stage 2: z3's default configuration (MBQI on), full budget; can also produce models
-    s, r = attempt(False, timeout_ms)
-    dt = time.time() - t0
-    if r == z3.unsat:
-        return "unsat", dt, None, "z3"
-    if r == z3.sat:
-        try:
-            m = s.model()
-        except Exception:
-            m = None
-        return "sat", dt, m, "z3"
-    # stage 3: E-matching only again with the long budget
-    s3, r3 = attempt(True, timeout_ms)
-    dt = time.time() - t0
-    if r3 == z3.unsat:
-        return "unsat", dt, None, "z3-ematch"
-    return "unknown", dt, (s, ), "z3"
+    # alternating budgets: E-matching only (fast and stable for most valid VCs), then z3's default configuration (MBQI on; can also
+    # produce models), first with short budgets, then with the full one - so that neither mode waits for the other's time-out
+    last = None
+    saturated = {True: False, False: False}  # the mode gave up before its time-out: a longer budget cannot change its answer
+    for ematch, tmo in ((True, min(2000, timeout_ms)), (False, min(5000, timeout_ms)), (True, timeout_ms), (False, timeout_ms)):
+        if saturated[ematch]:
+            continue
+        s, r = attempt(ematch, tmo)
+        dt = time.time() - t0
+        if r == z3.unsat:
+            return "unsat", dt, None, "z3-ematch" if ematch else "z3"
+        if r == z3.sat and not ematch:
+            try:
+                m = s.model()
+            except Exception:
+                m = None
+            return "sat", dt, m, "z3"
+        if not ematch:
+            last = s
+        why = s.reason_unknown() if r == z3.unknown else ""
+        if "timeout" not in why and "canceled" not in why:
+            saturated[ematch] = True
+        if tmo >= timeout_ms:
+            saturated[ematch] = True
+    return "unknown", time.time() - t0, (last, ), "z3"
 
 
 _SPEC_REFS = {}
